@@ -100,7 +100,7 @@ class Chunks:
     split = 0
 
     def __init__(self, data):
-        self.data = data
+        self.data = bytes(data) if isinstance(data, memoryview) else data
 
     def __iter__(self):
         k = Chunks.split
@@ -134,10 +134,22 @@ def adler32(data, value=1):
     return (b << 16) | a
 
 
-def setup_model(split=0):
-    m = L()
+_G = None
+
+
+def G():
+    """the frozen baseline copy of core.py (reference encoders for C18)"""
+    global _G
+    if _G is None:
+        here = os.path.dirname(os.path.dirname(os.path.abspath(__file__)))
+        _G = loader.load(repo=os.path.join(here, 'golden'), pkgname='dcgold_ch', cut=False, modules=['core'])
+    return _G
+
+
+def setup_model(split=0, mod=None, fs=None):
+    m = mod or L()
     core = m.core
-    fs = FS()
+    fs = fs or FS()
     Chunks.split = split
 
     def m_open(path, mode='r', encoding=None, newline=None, **kw):
@@ -162,7 +174,8 @@ def setup_model(split=0):
     core.op = types.SimpleNamespace(join=lambda *a: '/'.join(a), split=lambda p: tuple(p.rsplit('/', 1)),
                                     getsize=lambda p: len(fs.files[p]), exists=lambda p: fs.files.get(p) is not None)
     core.io = types.SimpleNamespace(BytesIO=Chunks, StringIO=Chunks)
-    core.zlib = types.SimpleNamespace(adler32=adler32, compress=m._orig['zlib'].compress, decompress=m._orig['zlib'].decompress)
+    import zlib as _zlib
+    core.zlib = types.SimpleNamespace(adler32=adler32, compress=_zlib.compress, decompress=_zlib.decompress)
     return core, fs, '/m'
 
 
